@@ -10,70 +10,70 @@ import (
 
 // typedNative lists the generated, per-element-type native conversion functions.
 var typedNative = map[string]interface{}{
-	"Vector/bool": native.VectorB,
-	"Matrix/bool": native.MatrixB,
-	"Tensor3/bool": native.Tensor3B,
-	"Select/bool": native.SelectB,
-	"Vector/int": native.VectorI,
-	"Matrix/int": native.MatrixI,
-	"Tensor3/int": native.Tensor3I,
-	"Select/int": native.SelectI,
-	"Vector/int8": native.VectorI8,
-	"Matrix/int8": native.MatrixI8,
-	"Tensor3/int8": native.Tensor3I8,
-	"Select/int8": native.SelectI8,
-	"Vector/int16": native.VectorI16,
-	"Matrix/int16": native.MatrixI16,
-	"Tensor3/int16": native.Tensor3I16,
-	"Select/int16": native.SelectI16,
-	"Vector/int32": native.VectorI32,
-	"Matrix/int32": native.MatrixI32,
-	"Tensor3/int32": native.Tensor3I32,
-	"Select/int32": native.SelectI32,
-	"Vector/int64": native.VectorI64,
-	"Matrix/int64": native.MatrixI64,
-	"Tensor3/int64": native.Tensor3I64,
-	"Select/int64": native.SelectI64,
-	"Vector/uint": native.VectorU,
-	"Matrix/uint": native.MatrixU,
-	"Tensor3/uint": native.Tensor3U,
-	"Select/uint": native.SelectU,
-	"Vector/uint8": native.VectorU8,
-	"Matrix/uint8": native.MatrixU8,
-	"Tensor3/uint8": native.Tensor3U8,
-	"Select/uint8": native.SelectU8,
-	"Vector/uint16": native.VectorU16,
-	"Matrix/uint16": native.MatrixU16,
-	"Tensor3/uint16": native.Tensor3U16,
-	"Select/uint16": native.SelectU16,
-	"Vector/uint32": native.VectorU32,
-	"Matrix/uint32": native.MatrixU32,
-	"Tensor3/uint32": native.Tensor3U32,
-	"Select/uint32": native.SelectU32,
-	"Vector/uint64": native.VectorU64,
-	"Matrix/uint64": native.MatrixU64,
-	"Tensor3/uint64": native.Tensor3U64,
-	"Select/uint64": native.SelectU64,
-	"Vector/float32": native.VectorF32,
-	"Matrix/float32": native.MatrixF32,
-	"Tensor3/float32": native.Tensor3F32,
-	"Select/float32": native.SelectF32,
-	"Vector/float64": native.VectorF64,
-	"Matrix/float64": native.MatrixF64,
-	"Tensor3/float64": native.Tensor3F64,
-	"Select/float64": native.SelectF64,
-	"Vector/complex64": native.VectorC64,
-	"Matrix/complex64": native.MatrixC64,
-	"Tensor3/complex64": native.Tensor3C64,
-	"Select/complex64": native.SelectC64,
-	"Vector/complex128": native.VectorC128,
-	"Matrix/complex128": native.MatrixC128,
+	"Vector/bool":        native.VectorB,
+	"Matrix/bool":        native.MatrixB,
+	"Tensor3/bool":       native.Tensor3B,
+	"Select/bool":        native.SelectB,
+	"Vector/int":         native.VectorI,
+	"Matrix/int":         native.MatrixI,
+	"Tensor3/int":        native.Tensor3I,
+	"Select/int":         native.SelectI,
+	"Vector/int8":        native.VectorI8,
+	"Matrix/int8":        native.MatrixI8,
+	"Tensor3/int8":       native.Tensor3I8,
+	"Select/int8":        native.SelectI8,
+	"Vector/int16":       native.VectorI16,
+	"Matrix/int16":       native.MatrixI16,
+	"Tensor3/int16":      native.Tensor3I16,
+	"Select/int16":       native.SelectI16,
+	"Vector/int32":       native.VectorI32,
+	"Matrix/int32":       native.MatrixI32,
+	"Tensor3/int32":      native.Tensor3I32,
+	"Select/int32":       native.SelectI32,
+	"Vector/int64":       native.VectorI64,
+	"Matrix/int64":       native.MatrixI64,
+	"Tensor3/int64":      native.Tensor3I64,
+	"Select/int64":       native.SelectI64,
+	"Vector/uint":        native.VectorU,
+	"Matrix/uint":        native.MatrixU,
+	"Tensor3/uint":       native.Tensor3U,
+	"Select/uint":        native.SelectU,
+	"Vector/uint8":       native.VectorU8,
+	"Matrix/uint8":       native.MatrixU8,
+	"Tensor3/uint8":      native.Tensor3U8,
+	"Select/uint8":       native.SelectU8,
+	"Vector/uint16":      native.VectorU16,
+	"Matrix/uint16":      native.MatrixU16,
+	"Tensor3/uint16":     native.Tensor3U16,
+	"Select/uint16":      native.SelectU16,
+	"Vector/uint32":      native.VectorU32,
+	"Matrix/uint32":      native.MatrixU32,
+	"Tensor3/uint32":     native.Tensor3U32,
+	"Select/uint32":      native.SelectU32,
+	"Vector/uint64":      native.VectorU64,
+	"Matrix/uint64":      native.MatrixU64,
+	"Tensor3/uint64":     native.Tensor3U64,
+	"Select/uint64":      native.SelectU64,
+	"Vector/float32":     native.VectorF32,
+	"Matrix/float32":     native.MatrixF32,
+	"Tensor3/float32":    native.Tensor3F32,
+	"Select/float32":     native.SelectF32,
+	"Vector/float64":     native.VectorF64,
+	"Matrix/float64":     native.MatrixF64,
+	"Tensor3/float64":    native.Tensor3F64,
+	"Select/float64":     native.SelectF64,
+	"Vector/complex64":   native.VectorC64,
+	"Matrix/complex64":   native.MatrixC64,
+	"Tensor3/complex64":  native.Tensor3C64,
+	"Select/complex64":   native.SelectC64,
+	"Vector/complex128":  native.VectorC128,
+	"Matrix/complex128":  native.MatrixC128,
 	"Tensor3/complex128": native.Tensor3C128,
-	"Select/complex128": native.SelectC128,
-	"Vector/string": native.VectorStr,
-	"Matrix/string": native.MatrixStr,
-	"Tensor3/string": native.Tensor3Str,
-	"Select/string": native.SelectStr,
+	"Select/complex128":  native.SelectC128,
+	"Vector/string":      native.VectorStr,
+	"Matrix/string":      native.MatrixStr,
+	"Tensor3/string":     native.Tensor3Str,
+	"Select/string":      native.SelectStr,
 }
 
 // callTypedNative calls native.<fn><suffix>(t[, axis]) and flattens the nested slices it returns.
